@@ -173,3 +173,22 @@ pub fn c04_name_eq_fixed_layout_bounded() {
 // `name_cmp` (label iterators walked from the back) does not finish in CBMC even for two names of one
 // single-octet label (15 min); a harness with hashing and a compressed ParsedName ran 25 min without verdict.
 // The name order is under contract in the Verus unit `nameorder` instead.
+
+/// Names, flat representation: names that compare equal write the same octets to any `Hasher`.
+/// Bounded: fixed label layout (1 + 2 content octets, root), all content octets.
+#[kani::proof]
+#[kani::unwind(12)]
+pub fn c04_name_eq_implies_hash_eq_fixed_layout_bounded() {
+    let a: [u8; 3] = kani::any();
+    let b: [u8; 3] = kani::any();
+    let x = Name::from_octets([1u8, a[0], 2, a[1], a[2], 0]).unwrap();
+    let y = Name::from_octets([1u8, b[0], 2, b[1], b[2], 0]).unwrap();
+    kani::cover!(x == y && a != b);
+    if x == y {
+        let (mut h1, mut h2) = (Rec::<16>::new(), Rec::<16>::new());
+        x.hash(&mut h1);
+        y.hash(&mut h2);
+        assert!(h1.same(&h2));
+        assert!(!h1.overflow && h1.len > 0);
+    }
+}
